@@ -141,7 +141,7 @@ def currencies(E, cfg):
              ('fraction-text', dict(smallest_fraction='x')), ('minor-fraction-mismatch', dict(minor_unit=3, smallest_fraction='0.05')),
              ('minor0-fraction-mismatch', dict(minor_unit=0, smallest_fraction=Decimal('0.5'))),
              ('minor-huge', dict(minor_unit=70000)), ('iso-unknown', None), ('iso-lowercase', None), ('empty-symbol', dict(minor_unit=2)),
-             ('nonstring-symbol', dict(minor_unit=2))]
+             ('nonstring-symbol', dict(minor_unit=2)), ('money-subclass', dict(minor_unit=2))]
     label, kw = E.choice('case', cases)
     Money.register_currency('EUR')
     before = D.observe_directories(['QQY', 'ZZZ', 'eur'])
@@ -158,6 +158,12 @@ def currencies(E, cfg):
     elif label == 'nonstring-symbol':
         fn = lambda: Money.new_unit(5, 'five', **kw)
         sym = None
+    elif label == 'money-subclass':
+        # a currency declared on a subclass of Money: accepted or rejected, but not rejected half-way
+        Sub = type(Money)('SubMoney', (Money,), {})
+        before = D.observe_directories(['QQY', 'ZZZ', 'eur'])
+        fn = lambda: Sub.new_unit('QQY', 'Sub currency', **kw)
+        sym = 'QQY'
     else:
         fn = lambda: Money.new_unit('QQY', 'Bad currency', **kw)
         sym = 'QQY'
@@ -168,6 +174,9 @@ def currencies(E, cfg):
     except Exception as e:
         E.fail('invalid-currency-rejected', key='currency:%s:wrong-exception:%s' % (label, type(e).__name__))
     else:
+        if label == 'money-subclass':
+            E.ok('invalid-currency-rejected')
+            return
         E.fail('invalid-currency-rejected', key='currency:%s:accepted' % label)
         return
     after = D.observe_directories(['QQY', 'ZZZ', 'eur'])
@@ -187,9 +196,13 @@ def currencies(E, cfg):
         else:
             E.fail('rejected-currency-not-parsable', key='currency:%s:parse-produces-instance' % label)
         if sym == 'QQY':
-            cur = Money.new_unit('QQY', 'Good currency', minor_unit=1)
-            E.check(Unit('QQY') is cur and cur.smallest_fraction == Fraction(1, 10), 'symbol-available-afterwards',
-                    key='currency:%s:symbol-taken' % label)
+            try:
+                cur = Money.new_unit('QQY', 'Good currency', minor_unit=1)
+            except ValueError:
+                E.fail('symbol-available-afterwards', key='currency:%s:symbol-taken' % label)
+            else:
+                E.check(Unit('QQY') is cur and cur.smallest_fraction == Fraction(1, 10), 'symbol-available-afterwards',
+                        key='currency:%s:symbol-taken' % label)
 
 
 def _conv_obs(conv):
